@@ -1,4 +1,6 @@
 """C14 -- layout and statement order do not change the output (non-interference by types)."""
+import re
+
 from vlib import ast as A, prov as P, mir as M, witness as W
 
 LEVEL = "other"
@@ -199,7 +201,55 @@ def neutral_rule(repo, res, rule="NEUTRAL"):
     res.check(ok, rule, f"{rule}:blanks", "blanks = whitespace | # comment | form feed", f.loc() if f else "")
 
 
+def blanks_rule(repo, res, rule="BLANKS"):
+    """Whitespace, line breaks, # comments and form feeds are skipped by the parser's own skippers (blanks / multiblanks0 /
+    multiblanks1 / comment ...).  nom's raw whitespace parsers (multispace0/1, space0/1, line_ending, newline, char(' ') ...)
+    do not know comments or form feeds: they may be called only from inside those skippers.  A token boundary that uses one
+    directly accepts some layouts of a grammar and rejects (or mis-tokenises) others."""
+    raw = {"multispace0", "multispace1", "space0", "space1", "line_ending", "newline", "crlf", "tab", "not_line_ending"}
+    skippers = set()
+    users = {}
+    for fn in repo.fns_in("parse"):
+        for n in A.walk(fn.body):
+            name = None
+            if n["k"] == "Path":
+                name = n["path"].split("::")[-1]
+            if name in raw:
+                users.setdefault(fn.qname, set()).add(name)
+    # a skipper is multiblanks0 / multiblanks1 and whatever they call (blanks, comment, form_feed ...): the call closure, not a name pattern
+    by_name = {f.name: f for f in repo.fns_in("parse")}
+    work = [n for n in ("multiblanks0", "multiblanks1") if n in by_name]
+    closure = set(work)
+    while work:
+        f = by_name[work.pop()]
+        for n in A.walk(f.body):
+            if n["k"] == "Path":
+                c = n["path"].split("::")[-1]
+                if c in by_name and c not in closure:
+                    closure.add(c)
+                    work.append(c)
+    skippers = {by_name[n].qname for n in closure}
+    tabled = {"parse::parse_escaped_whitespace": "inside a quoted description: a backslash followed by a run of whitespace is part of the string syntax, not a token boundary"}
+    skippers |= set(tabled)
+    for q, names in sorted(users.items()):
+        res.check(q in skippers, rule, f"{rule}:{q}", f"uses nom's raw {sorted(names)}" + (" inside a blank/comment skipper" if q in skippers else ": a token-level parser skips plain whitespace only here -- comments and form feeds at this boundary are not skipped (layout changes the parse)"), repo.fns[q].loc())
+    res.check(len(skippers) >= 1, rule, f"{rule}:skippers-found", f"skippers that may use the raw parsers: {sorted(skippers)}", "")
+    # and the statement / expression parsers do call the skippers
+    callers = 0
+    for fn in repo.fns_in("parse"):
+        for n in A.walk(fn.body):
+            if n["k"] == "Path" and n["path"].split("::")[-1] in ("multiblanks0", "multiblanks1"):
+                callers += 1
+    res.check(callers >= 20, rule, f"{rule}:skipper-use-floor", f"{callers} uses of multiblanks0/multiblanks1 in parse.rs (floor 20)", "")
+
+
 def run(repo, res, tier):
+    blanks_rule(repo, res)
+    from . import common, c02
+    # statement order: the dependency graph sees every reference (also inside `||`), and expansion is post-order over it, so every
+    # topological order of the definitions yields the same expanded expression
+    common.run_traversals(repo, res, only={"check::do_get_nonterm_refs"}, rp=False)
+    c02.postorder(repo, res)
     mir = M.get_mir(tier)
     res.engines["M"] = {"functions": len(mir.fns)}
     witness_rule(res, ["w_nospan_dfa", "t_nospan_regex", "w_noexprid_regex_dfa", "t_noexprid_expr"], "TYREACH")
